@@ -92,48 +92,8 @@ func runW6(c *Ctx, s *Sink) {
 				return true
 			}
 			obj := info.ObjectOf(id)
-			verdicts := closeConditions(info, fd, fd.Body, obj)
-			why := ""
-			// handed to a callee
-			ast.Inspect(fd.Body, func(m ast.Node) bool {
-				cl, ok := m.(*ast.CallExpr)
-				if !ok {
-					return true
-				}
-				f := callee(info, cl)
-				if f == nil || f.Pkg() == nil || !strings.HasPrefix(f.Pkg().Path(), modPath) {
-					return true
-				}
-				for i, a := range cl.Args {
-					aid, ok := ast.Unparen(a).(*ast.Ident)
-					if !ok || info.ObjectOf(aid) != obj {
-						continue
-					}
-					d, dp := c.DeclOf(f)
-					if d == nil || d.Body == nil {
-						continue
-					}
-					prm := flattenParams(d.Type.Params)
-					if i >= len(prm) || prm[i] == nil {
-						continue
-					}
-					for _, v := range closeConditions(dp.TypesInfo, d, d.Body, dp.TypesInfo.ObjectOf(prm[i])) {
-						if strings.HasPrefix(v, "param:") {
-							k := int(v[len("param:")] - '0')
-							if k < len(cl.Args) {
-								if lit, ok := ast.Unparen(cl.Args[k]).(*ast.Ident); ok && lit.Name == "true" && info.ObjectOf(lit) == types.Universe.Lookup("true") {
-									v = "always"
-								} else {
-									why = c.Pos(cl.Pos()) + ": " + f.Name() + " closes it only when its argument " + types.ExprString(cl.Args[k]) + " is true"
-									v = "cond"
-								}
-							}
-						}
-						verdicts = append(verdicts, v)
-					}
-				}
-				return true
-			})
+			var why string
+			verdicts := w6Verdicts(c, p, fd, obj, 0, &why)
 			always := false
 			for _, v := range verdicts {
 				if v == "always" {
@@ -154,4 +114,60 @@ func runW6(c *Ctx, s *Sink) {
 			return true
 		})
 	})
+}
+
+// w6Verdicts: how the Close() of the value held by obj is conditioned in fd, following the value into the module functions
+// it is handed to (also through a go statement), at most three levels deep. "param:k" refers to the k-th parameter of fd.
+func w6Verdicts(c *Ctx, p *packages.Package, fd *ast.FuncDecl, obj types.Object, depth int, why *string) []string {
+	info := p.TypesInfo
+	verdicts := closeConditions(info, fd, fd.Body, obj)
+	if depth > 3 {
+		return verdicts
+	}
+	ast.Inspect(fd.Body, func(m ast.Node) bool {
+		cl, ok := m.(*ast.CallExpr)
+		if !ok {
+			return true
+		}
+		f := callee(info, cl)
+		if f == nil || f.Pkg() == nil || !strings.HasPrefix(f.Pkg().Path(), modPath) {
+			return true
+		}
+		for i, a := range cl.Args {
+			aid, ok := ast.Unparen(a).(*ast.Ident)
+			if !ok || info.ObjectOf(aid) != obj {
+				continue
+			}
+			d, dp := c.DeclOf(f)
+			if d == nil || d.Body == nil {
+				continue
+			}
+			prm := flattenParams(d.Type.Params)
+			if i >= len(prm) || prm[i] == nil {
+				continue
+			}
+			for _, v := range w6Verdicts(c, dp, d, dp.TypesInfo.ObjectOf(prm[i]), depth+1, why) {
+				if strings.HasPrefix(v, "param:") {
+					k := int(v[len("param:")] - '0')
+					v = "cond"
+					if k < len(cl.Args) {
+						arg := ast.Unparen(cl.Args[k])
+						if lit, ok := arg.(*ast.Ident); ok && lit.Name == "true" && info.ObjectOf(lit) == types.Universe.Lookup("true") {
+							v = "always"
+						} else if id, ok := arg.(*ast.Ident); ok {
+							if kk, lit := paramIndex(info, fd, info.ObjectOf(id)); kk >= 0 && lit == nil {
+								v = "param:" + itoa(kk)
+							}
+						}
+						if v == "cond" {
+							*why = c.Pos(cl.Pos()) + ": " + f.Name() + " closes it only when its argument " + types.ExprString(cl.Args[k]) + " is true"
+						}
+					}
+				}
+				verdicts = append(verdicts, v)
+			}
+		}
+		return true
+	})
+	return verdicts
 }
